@@ -88,7 +88,8 @@ def make_input(seed, i):
     case.pop("start_method", None)     # (the start method is a configuration of its own here, not part of the input)
     case["m"] = int(rng.integers(1, 4))
     if i % 3 == 1 and not case.get("init"):
-        case["gmm_max_iter"] = 2          # the seeding mixture runs out of EM steps (in every configuration of this input alike)
+        case["gmm_max_iter"] = 1          # the seeding mixture runs out of EM steps (in every configuration of this input alike)
+        case["limit"] = 1                 # one round: the returned MRFs are fitted to the seeding labels themselves
     if isinstance(case["data"]["T"], int):
         case["data"]["T"] = max(case["data"]["T"], 80)
     else:
